@@ -106,13 +106,17 @@ def ob_assembly(ctx):
     down = ctx.mk.seq("down", k, "ACGTacgt")
     starts = [ctx.mk.seq("s%d" % i, k, "ACGTacgt") for i in range(m)]
     ends = [ctx.mk.seq("e%d" % i, k, "ACGTacgt") for i in range(m)]
-    bad = [ctx.mk.bool("bad%d" % i) for i in range(m)]
-    vbad = ctx.mk.bool("vbad")
+    # how a record is invalid: 0 = it is fine, 1 = it does not match the structure (InvalidSequence carrying the record),
+    # 2 = it matches but holds a further site (IllegalSite carrying the bare sequence, as modules.py/vectors.py raise it)
+    bad = [ctx.mk.pick("bad%d" % i, 3) for i in range(m)]
+    vbad = ctx.mk.pick("vbad", 3)
 
     class Flaky(Mod):
         def _chk(self):
-            if self.is_bad:
+            if self.is_bad == 1:
                 raise err.InvalidSequence(self.record, details="does not match")
+            if self.is_bad == 2:
+                raise err.IllegalSite(self.record.seq)
 
         def overhang_start(self):
             self._chk()
@@ -128,8 +132,10 @@ def ob_assembly(ctx):
 
     class FlakyVec(Vec):
         def _chk(self):
-            if self.is_bad:
+            if self.is_bad == 1:
                 raise err.InvalidSequence(self.record, details="does not match")
+            if self.is_bad == 2:
+                raise err.IllegalSite(self.record.seq)
 
         def overhang_start(self):
             self._chk()
@@ -157,7 +163,10 @@ def ob_assembly(ctx):
     out = run_assemble(st, vec, mods)  # anything but product / the three documented errors escapes
     ctx.observe("kind", out["kind"])
     ctx.witness(out["kind"])
-    ctx.require(out["kind"] in ("product", "InvalidSequence", "DuplicateModules", "MissingModule"), "undocumented-outcome")
+    ctx.witness("two-invalid-records", sum(1 for b in bad + [vbad] if b) >= 2)
+    ctx.require(out["kind"] in ("product", "InvalidSequence", "IllegalSite", "DuplicateModules", "MissingModule"), "undocumented-outcome")
+    if out["kind"] in ("InvalidSequence", "IllegalSite"):
+        str(out["exc"])  # the message of a MoClo error can always be rendered
     if out["kind"] == "product":
         ctx.require(isinstance(out["product"], st.record.CircularRecord), "product-type")
     return True
